@@ -29,5 +29,5 @@ TEXT = dict(
          "not proved: the values returned by scipy's beta.ppf/cdf and by the library's float bisections (checked per instance); "
          "the coverage of the smallest HDI containing x is a defined real function (hdcov, OpdaProofs/BetaHdV.lean) with proved V shape; "
          "the exact bisection in the model provably brackets it (hd_coverage_bracket_contains_hdcov) and the library's float value is "
-         "compared with that bracket. Finding on the unchanged tree: the HDI is not shortest within 1e-9 when 1-coverage<=1e-6.",
+         "compared with that bracket. Finding on the unchanged tree: the HDI is not shortest within 1e-9 (by at most 1.5e-8) when min(a,b) = 2 and 1-coverage <= 1e-8.",
 )
